@@ -5,6 +5,9 @@ HERE = os.path.dirname(os.path.dirname(os.path.abspath(__file__)))
 ALL = ["C%02d" % i for i in range(1, 21)]
 
 CHECKS = {
+ "C09": dict(cat="exploration", tech="call-log monitor on instrumented Python callables (exactly-once, positional arguments, result) + store/read-back oracle + wrapper-vs-Klong-text differential over redefinition/deletion histories",
+   text="Values of the universe stored through klong[name]=v are read back through klong[name], the program and an assignment; instrumented Python callables of arity 0..3 (with/without klong) are applied in every call form (direct, via variable, @, each, each-2, over, each-pair, every projection pattern of arity 2 and 3, two-step fill) and their call log is compared with the expected call sequence; Klong functions of arity 0..3 are called through klong[name](*args) along generated wrap/redefine/delete/call histories (including wrong argument counts) and compared with the Klong call text. Held on the histories observed.",
+   note="parameter names restricted to x,y,z prefix (+klong); a wrapper call while its name is deleted is executed but not judged.", ref="DESIGN.md §4 C09"),
  "C12": dict(cat="exploration", tech="sys.monitoring step-budget monitor (function entries + loop back-edges in parser.py/interpreter.py) on the real prog(), structural re-parse comparison, budgeted evaluation of re-parsed programs with a nondeterminism control",
    text="All strings of <=2 tokens (thorough: all 3-token strings) over a 60-token alphabet, token-level edits of the repository's .kg corpus lines and generated long / deeply nested / truncated strings are parsed under a deterministic work budget B(n)=100(n+4)^2; each is parsed twice and compared structurally, the variable snapshot is compared across the parse, and the re-parsed program's evaluation is compared with the first parse's. Bounded statement: no enumerated input exceeds the budget; true termination for all strings is not decided.",
    note="work = monitored events, not wall-clock; evaluation comparison skips I/O programs and programs whose own repeated evaluation is nondeterministic.", ref="DESIGN.md §4 C12"),
